@@ -106,6 +106,12 @@ CLAIMED = {
     text='For every shipped listing file (and truncated copies cut before a result set by an own scan of the raw text) the state (index, time, step, row names and every number of every table) of a fresh listing set directly to each index is recorded; then sequences over the full action alphabet (first, last, next, prev, index=i incl. negative, time=t exact / either side of each midpoint / before / after, step=s likewise, history) are executed on one live object - all sequences up to length 2 in the quick tier, up to length 4 / 3 / 2 by file size in the thorough tier, plus random sequences of 5-60 actions - and after every action the live state must equal the fresh state of the predicted index, next/prev must return whether they moved and never pass an end.',
     note='Trusted: the navigation model expected_index() in vf/props/c07.py; fresh snapshots come from the same reader (the property is about path independence, what the tables hold is C05). Times / steps exactly half-way between two result sets are not requested.',
     design='DESIGN.md §3 C07'),
+
+ 'C06': dict(
+    technique='runtime differential monitor with a logical clock: real history() against stepping through index on a second object, termination decided by a readline-counting proxy file object, before/after state snapshots',
+    text='For each of the 37 shipped listings, every non-empty subset of its tables in every order (all orders up to three tables, seeded orders beyond), with rows given by name, reversed name and integer index (first / interior / last / beyond the first page), three or all columns, list and tuple forms, both letter cases, short output on and off, and every starting index in {0, middle, last}, the series returned by the real history() are compared exactly with the series read by visiting every result time through index on an independent listing object (negated for reversed connection names); the times must be the full times (or the times incl. short output, with the values at short-output times compared with an own scan of the raw text); the listing\'s index, time, step and every table must be identical before and after the call; and the call must finish within a logical budget of 64 + 4 x (lines in the file) readline calls and never read more than 1000 times in a row at end of file - a budget overrun is the witness of non-termination, wall time is never a verdict.',
+    note='Trusted: stepping through index as the definition of the expected series (what the tables hold is C05), the proxy file object, the own short-output scan in vf/props/c06.py.',
+    design='DESIGN.md §3 C06'),
 }
 
 def main():
